@@ -1,6 +1,9 @@
 package auth
 
-import "github.com/cnotch/ipchub/zzverif/symapi"
+import (
+	"github.com/cnotch/ipchub/internal/verifhook"
+	"github.com/cnotch/ipchub/zzverif/symapi"
+)
 
 type verifProvider struct {
 	stored                           []*User
@@ -134,4 +137,56 @@ func VerifUserTableTwin() {
 	m.Save(&User{Name: "bob", Password: "p1"}, true)
 	m.Save(&User{Name: "BOB", Password: "p2"}, false)
 	symapi.Assert(m.Get("bob").Password == "p2", "twin-update-always-changes-password")
+}
+
+var verifCrashPoints = []string{"", "encodejson.opened", "encodejson.written", "encodejson.synced", "encodejson.closed", "encodejson.renamed"}
+
+func verifBytesEq(a, b []byte) bool {
+	if len(a) != len(b) {
+		return false
+	}
+	for i := range a {
+		if a[i] != b[i] {
+			return false
+		}
+	}
+	return true
+}
+
+// VerifJSONProviderCrash (C18): the users file as the JSON provider flushes it: if the
+// process dies at any point of the provider's Flush (before, inside or after the file
+// writer), a restart finds the complete previous file or the complete new one - never no
+// file (which LoadAll answers with the default administrator account).
+func VerifJSONProviderCrash() {
+	full := []*User{{Name: "admin", Password: "x", Admin: true}, {Name: "bob", Password: "p"}}
+	ref := &jsonProvider{filePath: symapi.TempPath("ref-users.json")}
+	symapi.Assert(ref.Flush(full, nil, nil) == nil, "reference-flush-ok")
+	newc, ok := symapi.DurableFile(ref.filePath)
+	symapi.Assert(ok && len(newc) > 0, "complete-flush-is-durable")
+
+	p := &jsonProvider{filePath: symapi.TempPath("users.json")}
+	old := []byte("[{\"name\":\"previous-table\"}]")
+	symapi.SetFile(p.filePath, old)
+	verifhook.CrashAt = verifCrashPoints[symapi.Choose("crashAt", len(verifCrashPoints))]
+	crashed := false
+	func() {
+		defer func() {
+			if r := recover(); r != nil {
+				if _, isCrash := r.(verifhook.CrashSignal); isCrash {
+					crashed = true
+					return
+				}
+				panic(r)
+			}
+		}()
+		p.Flush(full, nil, nil)
+	}()
+	verifhook.CrashAt = ""
+	img, exists := symapi.DurableFile(p.filePath)
+	symapi.Assert(exists, "users-file-still-exists-after-a-crash-in-flush")
+	symapi.Assert(verifBytesEq(img, old) || verifBytesEq(img, newc), "users-file-is-complete-old-or-complete-new")
+	if !crashed {
+		symapi.Assert(verifBytesEq(img, newc), "uninterrupted-flush-writes-the-new-table")
+	}
+	symapi.Reach("end")
 }
